@@ -487,7 +487,9 @@ func (g *Gen) places() []place {
 					walk(place{p.code + "." + f.Name, f.Type, true, p.root}, d-1)
 				}
 			}
-			walk(place{"(*" + p.code + ")", p.t.Elem, true, p.root}, 0)
+			// rendered without parentheses: "((*p) op x)" as an element of a
+			// composite literal is a recorded known finding (paren-star-elem)
+			walk(place{"*" + p.code, p.t.Elem, true, p.root}, 0)
 		}
 	}
 	for _, v := range g.visible() {
